@@ -29,6 +29,26 @@ fn c15_abs() {
     kani::cover!(true, "COVER:end");
 }
 
+/// C15.abs, modular form: the same obligation with the three emitters the trampoline writer calls
+/// replaced by their (separately proved) contracts — the caller is checked against the callees'
+/// contracts, not their bodies.
+#[kani::proof]
+#[kani::unwind(66)]
+#[kani::stub(crate::injector_core::linuxapi::__clear_cache, os::flush)]
+#[kani::stub_verified(crate::injector_core::arm64_codegenerator::emit_movz_from_address)]
+#[kani::stub_verified(crate::injector_core::arm64_codegenerator::emit_movk_from_address)]
+#[kani::stub_verified(crate::injector_core::arm64_codegenerator::emit_br)]
+fn c15_abs_modular() {
+    let target: usize = kani::any();
+    generate_will_execute_jit_code_abs(os::mem_ptr(8), target as *const ());
+    let w = [word(8), word(12), word(16), word(20), word(24)];
+    let regs: [u64; 32] = kani::any();
+    let run = a64_run(&w, 5, 0x1000, &regs);
+    assert!(run.end == A64End::Jump(target as u64), "OBL:C15.abs.modular.lands: against the emitters' contracts, the trampoline builds exactly the fake's address and branches to it");
+    assert!(run.written == 1 << 9, "OBL:C15.abs.modular.regs: only x9 is written");
+    kani::cover!(true, "COVER:end");
+}
+
 /// C15.bool — MOVZ X0, #v ; RET
 #[kani::proof]
 #[kani::unwind(34)]
